@@ -48,6 +48,8 @@ Definition F_sig_cleanup1 := 25%N.      (* SIGINT / SIGTERM while the initial cl
 Definition F_setsid := 26%N.            (* a spotlight's descendant in another session holds its output pipe *)
 Definition F_two_sigints := 27%N.       (* a never-ending action, SIGINT, a second SIGINT 2 s later *)
 Definition F_mood_foul_S := 29%N.       (* no actors, mood-only scenes 1 ms apart, 400 auditors fouled by the first, -S *)
+Definition F_repeat_time := 30%N.       (* repeat from + finite repeat time + repeat always: ends by itself *)
+Definition F_long_play_sig := 31%N.     (* SIGINT after the play has run for more than a minute *)
 Definition F_read_stdin := 28%N.        (* shakespeare's stdin stays open; cleanups, actions, a spotlight read theirs *)   (* -S foul during a long action, chatty spotlight *)
 Definition is_hang (f : N) : bool := (13 <=? f)%N && (f <=? 19)%N.
 
@@ -180,7 +182,9 @@ Definition labels_of (f : N) : bool * list label :=
              LFinP false ENil; LPick CP; LPick CS; LPick CA; LFin CK ENil; LPick CK; LDefer false; LCleanup2 true])
   else if (f =? F_sig_cleanup1)%N then
     (false, [LQuiesce; LCleanup1 true; LFinP false ENil; LPick CP] ++ tail_ok ++ [LDefer false; LCleanup2 true])
-  else if (f =? F_setsid)%N || (f =? F_read_stdin)%N then
+  else if (f =? F_long_play_sig)%N then
+    (false, [LCleanup1 true; LScene; LQuiesce; LFinP false ENil; LPick CP] ++ tail_ok ++ [LDefer false; LCleanup2 true])
+  else if (f =? F_setsid)%N || (f =? F_read_stdin)%N || (f =? F_repeat_time)%N then
     (false, [LCleanup1 true; LScene; LScene; LScene; LFinP true ENil; LPick CP] ++ tail_ok ++ [LDefer false; LCleanup2 true])
   else if (f =? F_two_sigints)%N then
     (true, [LCleanup1 true; LQuiesce; LFin CS ENil; LFin CA ENil; LFin CK ENil; LPick CS])
